@@ -125,6 +125,12 @@ def check_centroid(run, S, name, spec, kw):
     it = S.showval(e['args'][0])
     run.ob(key + ':iter', 'iter(a0)' in it.replace(' ', '') or 'iter(' in it and 'a0' in it, rule='K7 fold pattern', expected='the iterator is points.iter()', found=it[:120], where=where)
     init = flat(cv.val(e['args'][1]))
+    if len(init) != n or not all(isinstance(x, El) for x in init):
+        # a fold with another accumulator (a running (total, count) pair, say): not the idiom the general-n argument is written
+        # for; the bounded instances centroid_n1..4 decide the behaviour for up to four points
+        run.notes.setdefault('centroid_general_n', {})[name] = 'not decided for arbitrary n (fold over a compound accumulator); decided for n = 1..4'
+        run.ob('%s:%s:general-n' % (PROP, name), True, rule='K7 fold pattern (not applicable to this implementation)', expected='plain fold idiom or bounded instances', found='bounded instances only', where=where, nontrivial=False)
+        return
     run.ob(key + ':init', len(init) == n and all(A.eq(x, ZERO) for x in init), rule='K7 fold pattern', expected='initial accumulator = zero vector', found=[A.show(x) for x in init], where=where)
     lam = e.get('lambda', {})
     if not run.ob(key + ':lambda', 'out' in lam and lam['out']['k'] == 'ret', rule='K7 fold pattern', expected='the folding closure summarises to one Return', found=str(lam)[:200], where=where):
